@@ -218,7 +218,7 @@ def lighter_mitm(inst: D.Inst, max_w: int) -> Optional[Dict[int, str]]:
     return None
 
 
-def lighter_milp(inst: D.Inst, time_limit: float = 8.0, max_logicals: int = 8) -> Optional[Dict[int, str]]:
+def lighter_milp(inst: D.Inst, time_limit: float = 8.0, max_logicals: int = 8, first: int = 0) -> Optional[Dict[int, str]]:
     """minimum-weight operator commuting with all generators and anticommuting with a listed
     logical (integer program over x, z, support w and integer slacks); returns an operator of
     weight < d if one is found within the time limit"""
@@ -229,6 +229,8 @@ def lighter_milp(inst: D.Inst, time_limit: float = 8.0, max_logicals: int = 8) -
     lo = (1 << n) - 1
     best = None
     logs = inst.LX + inst.LZ
+    first = first % max(len(logs), 1)
+    logs = logs[first:] + logs[:first]
     for l in logs[:max_logicals]:
         # variables: x (n), z (n), w (n), t (m), s (1)
         nv = 3 * n + m + 1
@@ -318,20 +320,41 @@ def oracle_case(c, deep):
         v = (inst.LX + inst.LZ)[i]
         op = {q: ('Y' if (v >> q) & 1 and (v >> (inst.n + q)) & 1 else 'X' if (v >> q) & 1 else 'Z')
               for q in range(inst.n) if ((v >> q) | (v >> (inst.n + q))) & 1}
+    covered = 0
     if op is None:
-        max_w = min(d - 1, c.get('max_w', 2))
+        max_w = min(d - 1, c.get('max_w', 2), 4)
         if max_w >= 3 and inst.n > (150 if max_w == 3 else 110):
             max_w = 2
         op = lighter_mitm(inst, max_w)
-    if op is None and deep and c.get('milp') and d >= 4:
-        op = lighter_milp(inst, time_limit=c.get('time_limit', 6.0))
-    if op is None or not check_operator(inst, op):
-        return None, None
-    return {'input': {'class': cls, 'size': list(size), 'deform': [deform[0], deform[1]],
-                      'operator': {str(q): p for q, p in sorted(op.items())},
-                      'operator_coordinates': describe(inst, op), 'weight': len(op), 'reported_d': d},
-            'observed': f'non-trivial logical operator of weight {len(op)} < reported d = {d}',
-            'match': {'class': cls, 'size': list(size)}}, None
+        covered = max_w
+    # integer program only where the exhaustive search does not reach d - 1
+    if op is None and (deep or c.get('always')) and c.get('milp') and covered < d - 1:
+        op = lighter_milp(inst, time_limit=c.get('time_limit', 6.0), max_logicals=c.get('max_logicals', 8),
+                          first=c.get('first', 0))
+    if op is not None and check_operator(inst, op):
+        return {'input': {'class': cls, 'size': list(size), 'deform': [deform[0], deform[1]],
+                          'operator': {str(q): p for q, p in sorted(op.items())},
+                          'operator_coordinates': describe(inst, op), 'weight': len(op), 'reported_d': d},
+                'observed': f'non-trivial logical operator of weight {len(op)} < reported d = {d}',
+                'match': {'class': cls, 'size': list(size)}}, None
+    # the other direction: the reported d must be attained.  The lightest listed logical has weight
+    # w_min; if d < w_min and the exhaustive search up to weight d finds no non-trivial logical,
+    # no operator of weight d is a non-trivial logical: d understates the distance.
+    if ws and d < min(ws):
+        exact = d <= 0 or (d <= 2) or (d == 3 and inst.n <= 150) or (d == 4 and inst.n <= 110)
+        if exact and (d <= 0 or lighter_or_equal_none(inst, d)):
+            return {'input': {'class': cls, 'size': list(size), 'deform': [deform[0], deform[1]],
+                              'operator': {}, 'understated': True, 'weight': None, 'reported_d': d,
+                              'lightest_listed': min(ws)},
+                    'observed': f'reported d = {d} but no non-trivial logical operator of weight <= {d} exists '
+                                f'(exhaustive search); the lightest listed logical has weight {min(ws)}',
+                    'match': {'class': cls, 'size': list(size)}}, None
+    return None, None
+
+
+def lighter_or_equal_none(inst: D.Inst, w: int) -> bool:
+    """True iff no non-trivial logical of weight <= w exists (exhaustive, w <= 4)"""
+    return lighter_mitm(inst, w) is None
 
 
 def oracle(ctx, deep=False, broken=None):
@@ -344,6 +367,11 @@ def oracle(ctx, deep=False, broken=None):
             n = K.qubit_count(cls, size)
             c = {'class': cls, 'size': list(size), 'deform': [None, {}], 'max_w': 4 if deep else 2,
                  'milp': deep and n <= 130}
+            if (cls, tuple(size)) in EXPECTED_UNCERTIFIED:
+                # no theorem covers these: always search with the integer program as well
+                c.update({'milp': n <= 300, 'always': True, 'max_w': 4 if n <= 110 else 3,
+                          'max_logicals': 8 if deep else 2, 'first': 0 if deep else 2 * ctx.seed,
+                          'uncertified': True})
             cases.append(c)
         if deep:
             small = [s for s in sizes if K.qubit_count(cls, s) <= 110]
@@ -359,7 +387,7 @@ def oracle(ctx, deep=False, broken=None):
     # MILP budget: spread over the cases that ask for it
     milp_cases = [c for c in cases if c.get('milp')]
     for c in milp_cases:
-        c['time_limit'] = 4.0
+        c['time_limit'] = 4.0 if deep else 2.5
     fails, errs = [], 0
     t0 = time.time()
     milp_deadline = 420 if ctx.thorough else 150
@@ -389,7 +417,7 @@ def replay(ctx, payload):
         inst = live(i['class'], tuple(i['size']), (i['deform'][0], i['deform'][1]))
     except Exception:  # noqa
         return False
-    if check_operator(inst, {int(q): p for q, p in i['operator'].items()}):
+    if i.get('operator') and check_operator(inst, {int(q): p for q, p in i['operator'].items()}):
         return True
     f, _ = oracle_case({'class': i['class'], 'size': i['size'], 'deform': i['deform'], 'max_w': 4, 'milp': True}, True)
     return f is not None
